@@ -47,6 +47,10 @@ func c19Progs() []c19Prog {
 		{"two-stage", "{ mark 1; put x } | each {|x| mark 2 }; mark 3", 3, 2, 0, false},
 		{"while", "var i = 0; while (< $i 3) { mark $i; set i = (+ $i 1) }", 3, 1, 0, false},
 		{"run-parallel", "run-parallel { mark a } { mark b }; mark c", 3, 2, 0, false},
+		// a background job earlier in the same frame must not shield the rest from the interrupt
+		{"after-background-job", "nop &; mark 1; mark 2; mark 3", 3, 1, 0, false},
+		{"background-job-in-closure", "{ nop &; mark 1; mark 2 }; mark 3", 3, 1, 0, false},
+		{"sleep-after-background-job", "nop &; mark 1; sleep 1000; mark 2", 2, 1, 0, true},
 	}
 }
 
@@ -152,7 +156,7 @@ func TestVerifC19(t *testing.T) {
 		return
 	}
 	vk.Run(t, "C19", "exploration", func(c *vk.Ctx) {
-		c.Rule(fmt.Sprintf("11 programs evaluated by the real Evaler with an interrupter goroutine whose only step is cancelling the Interrupts context; the scheduler places that step at every scheduling point (fault point = every synchronisation point) and explores every schedule with <=%d departures from the default goroutine; class = distinct (program, observation log, blocking profile)", cfg.Bound))
+		c.Rule(fmt.Sprintf("14 programs evaluated by the real Evaler with an interrupter goroutine whose only step is cancelling the Interrupts context; the scheduler places that step at every scheduling point (fault point = every synchronisation point) and explores every schedule with <=%d departures from the default goroutine; class = distinct (program, observation log, blocking profile)", cfg.Bound))
 		c.Assume("interrupt delivery is modelled as context cancellation (what the signal handler does); pkg/eval rewritten for the controlled scheduler; `sleep` uses a timer that never fires, so only the interrupt ends it")
 		vshard.Run(c, c19Scenarios(), cfg)
 	})
